@@ -24,6 +24,8 @@ func newSession(debug bool) (*Session, error) {
 	tLoad := time.Since(t0).Seconds()
 	e := newEngine(ld.prog, ld.fset)
 	e.debug = debug
+	e.files = ld.files
+	e.stubs = ld.stubs
 	if err := e.bind(ld); err != nil {
 		return nil, err
 	}
